@@ -458,7 +458,7 @@ theorem charEsc_sim (hn : Bool) (x : Nat) (r : List Nat) (h : AllChar r) :
 
 theorem isHex_plain {c : Nat} (h : ESG.isHex c = true) : Plain c := by
   simp only [ESG.isHex, ESG.isDigit, Bool.or_eq_true, Bool.and_eq_true, decide_eq_true_eq] at h
-  refine ⟨?_, ?_, ?_, ?_, ?_⟩ <;> omega
+  refine ⟨?_, ?_, ?_, ?_, ?_, ?_⟩ <;> omega
 
 theorem hex4_neutral (F : Feat) (m : Nat) {s r : List Nat} {v : Nat} (h : hex4 s = some (v, r)) :
     ∃ t, s = t ++ r ∧ NeutralM F m t := by
@@ -497,11 +497,11 @@ theorem uEscapeU_neutral (F : Feat) (m : Nat) {s r : List Nat} {v : Nat} (h : uE
           intro x hx
           simp only [List.mem_cons, List.mem_append, List.not_mem_nil, or_false] at hx
           rcases hx with rfl | hx | rfl
-          · refine ⟨?_, ?_, ?_, ?_, ?_⟩ <;> decide
+          · refine ⟨?_, ?_, ?_, ?_, ?_, ?_⟩ <;> decide
           · have := all_takeWhile (p := ESG.isHex) r0
             rw [List.all_eq_true] at this
             exact isHex_plain (this x hx)
-          · refine ⟨?_, ?_, ?_, ?_, ?_⟩ <;> decide
+          · refine ⟨?_, ?_, ?_, ?_, ?_, ?_⟩ <;> decide
       · cases h
     · cases h
   · split at h
@@ -528,7 +528,7 @@ theorem uEscapeU_neutral (F : Feat) (m : Nat) {s r : List Nat} {v : Nat} (h : uE
 
 theorem isAsciiLetter_plain {c : Nat} (h : ESG.isAsciiLetter c = true) : Plain c := by
   simp only [ESG.isAsciiLetter, Bool.or_eq_true, Bool.and_eq_true, decide_eq_true_eq] at h
-  refine ⟨?_, ?_, ?_, ?_, ?_⟩ <;> omega
+  refine ⟨?_, ?_, ?_, ?_, ?_, ?_⟩ <;> omega
 
 theorem charEscapeU_neutral (F : Feat) (m : Nat) {x : Nat} {r r' : List Nat} {v : Nat}
     (h : charEscapeU x r = some (v, r')) : ∃ t, r = t ++ r' ∧ NeutralM F m t := by
@@ -713,7 +713,7 @@ theorem atomEscape_sim (c : Cfg) (hcu : c.u = true) (st1 : PState) (hu : st1.fla
 
 theorem isDigit_plain {c : Nat} (h : ESG.isDigit c = true) : Plain c := by
   have := dig_range h
-  refine ⟨?_, ?_, ?_, ?_, ?_⟩ <;> omega
+  refine ⟨?_, ?_, ?_, ?_, ?_, ?_⟩ <;> omega
 
 /-- `DecimalEscape`, grammar side: the number is recorded in `maxDec`. -/
 theorem atomEscape_dec (c : Cfg) (hcu : c.u = true) {x : Nat} (r : List Nat) (hd : 0x31 ≤ x ∧ x ≤ 0x39)
